@@ -445,7 +445,8 @@ class C20(Prop):
                 elif not any(p["k"] == cps("footer") for p in t_["props"]):
                     t_["props"].append({"k": cps("footer"), "val": {"p": "node", "v": [], "items": [self.strip_f(_copy.deepcopy(k))]}})
                 al = True
-            gens.append({"kind": "conv", "tree": t_, "salt": n, "alias": al})
+            seq = "mutate_between" if (not al and rnd.random() < 0.25 and not any(uncps(p_["k"]) == "added" for p_ in t_["props"])) else ""
+            gens.append({"kind": "conv", "tree": t_, "salt": n, "alias": al, "seq": seq})
         names = ["a", "A", "class_", "onClick", "onclick", "b"]
         for _ in range(200 if tier == "quick" else 2000):
             allowed = rnd.sample(names, rnd.randint(1, 4))
@@ -495,6 +496,24 @@ class C20(Prop):
                 prev_res = res_obj
             events.append(ev)
         recs = [{"k": "hist", "heap0": heap0, "roots0": roots0, "events": events, "gen": g, "_module": "HeapTrace"}]
+        if g.get("seq") == "mutate_between" and out is not None:
+            # between two conversions: the caller edits what the FIRST conversion returned (its react dependencies are the
+            # caller's), and changes the component through its public attributes; the next conversion mirrors the component
+            # as it is then and carries the packaged react dependencies again
+            import copy as _copy
+            for d_ in [c_ for c_ in out.children if isinstance(c_, H.HTMLDependency)][:2]:
+                d_.name = d_.name + "-edited-by-caller"
+                d_.source = {"href": "https://elsewhere.example/"}
+                if d_.script:
+                    d_.script[0]["src"] = "replaced.js"
+            for d_ in H.HTMLDocument(out).render()["dependencies"][:2]:
+                d_.name = "x"
+            x.attrs["added"] = "v"
+            x.children.insert(0, "first")
+            tree = _copy.deepcopy(tree)
+            tree["props"] = tree["props"] + [{"k": cps("added"), "val": {"p": "str", "v": cps("v"), "items": []}}]
+            tree["kids"] = [{"f": "S", "name": [], "props": [], "kids": [], "v": cps("first"), "mode": ""}] + tree["kids"]
+            out = x.tagify()
         conv = {"k": "conv", "tree": tree, "parsed": False, "expr": {"e": "str", "name": [], "quoted": False, "props": [], "kids": [], "t": []},
                 "deps": [], "nbare": 0, "reactFirst": False, "reactFiles": False, "gen": g}
         if out is not None:
